@@ -46,7 +46,8 @@ static void gen_action(Rng &r, unsigned len, bool subst, Bytes &a, unsigned numU
             else if (c < 78 && subst) { w8(a, PUSH_BYTE); w8(a, r.below(2)); w8(a, ATTR_SET); w8(a, 17); }
             else if (c < 86 && subst) { unsigned n = 1 + r.below(3); w8(a, ASSOC); w8(a, n); for (unsigned q = 0; q < n; ++q) w8(a, u8(i64(rel_lo + int(r.below(u32(rel_hi - rel_lo + 1)))))); }
             else if (c < 92 && numUser) { w8(a, PUSH_BYTE); w8(a, r.below(100)); w8(a, IATTR_SET); w8(a, 55); w8(a, r.chance(1, 30) ? numUser : r.below(numUser)); }
-            else if (c < 96) { w8(a, PUSH_BYTE); w8(a, r.below(3)); w8(a, ATTR_SET); w8(a, 17); }                   // insert attr
+            else if (c < 94) { w8(a, PUSH_BYTE); w8(a, r.below(3)); w8(a, ATTR_SET); w8(a, 17); }                   // insert attr
+            else if (c < 96) { w8(a, PUSH_BYTE); w8(a, r.below(90)); w8(a, r.chance(1, 2) ? ATTR_SET : ATTR_ADD); w8(a, 22); }   // user1 through the legacy alias, whatever numUserDefn is
             else { w8(a, PUSH_SLOT_ATTR); w8(a, r.below(2)); w8(a, u8(i64(rel))); w8(a, PUSH_BYTE); w8(a, 3); w8(a, ADD); w8(a, ATTR_SET); w8(a, 0); }
         }
         w8(a, r.chance(1, 6) && subst ? COPY_NEXT : NEXT);
